@@ -11,10 +11,11 @@ Definition read_full_line (chunks : list str) : str := concat chunks.
 
 (* physical lines of a byte string: split at '\n'; a '\r' directly before the '\n'
    is dropped; a last line without '\n' counts if it is non-empty *)
+(* [cur] is the current line in reverse; rev_append is the linear-time reversal *)
 Fixpoint lines_aux (s : str) (cur : str) : list str :=
   match s with
-  | [] => match cur with [] => [] | _ => [rev cur] end
-  | 10 :: r => (match cur with 13 :: c' => rev c' | _ => rev cur end) :: lines_aux r []
+  | [] => match cur with [] => [] | _ => [rev_append cur []] end
+  | 10 :: r => (match cur with 13 :: c' => rev_append c' [] | _ => rev_append cur [] end) :: lines_aux r []
   | c :: r => lines_aux r (c :: cur)
   end.
 Definition ini_lines (text : str) : list str := lines_aux text [].
